@@ -40,8 +40,9 @@ var sdpH265PCMA = sdpH265[:strings.Index(sdpH265, "m=audio")] +
 
 // MakeRaw builds the packet of a case entry (id _ channel payload): the given bytes after a 12-byte RTP
 // header, on the given channel (0 video, 1 video RTCP, 2 audio, 3 audio RTCP).  The id is read back by idOf
-// from payload[1..4], where the generator put it.
-func MakeRaw(id int64, ch int64, payload []byte) *rtp.Packet {
+// from payload[1..4], where the generator put it.  A fifth field of twelve bytes replaces the header on the
+// RTCP channels (an RTCP packet starts with V/P/RC, e.g. 0x85 for five report blocks).
+func MakeRaw(id int64, ch int64, payload []byte, hdr []byte) *rtp.Packet {
 	d := make([]byte, 12+len(payload))
 	d[0] = 0x80
 	d[1] = 96
@@ -49,6 +50,9 @@ func MakeRaw(id int64, ch int64, payload []byte) *rtp.Packet {
 		d[1] = 8
 	}
 	d[2], d[3] = byte(id>>8), byte(id)
+	if len(hdr) == 12 && ch != int64(rtp.ChannelVideo) && ch != int64(rtp.ChannelAudio) {
+		copy(d, hdr) // RTCP channels: the first twelve bytes are not an RTP header; the case chooses them
+	}
 	copy(d[12:], payload)
 	pk := &rtp.Packet{Channel: byte(ch), Data: d}
 	if ch == int64(rtp.ChannelVideo) || ch == int64(rtp.ChannelAudio) {
@@ -65,7 +69,7 @@ func MakeRaw(id int64, ch int64, payload []byte) *rtp.Packet {
 // packetOf builds the packet of one case entry: (id kind) or (id _ channel payload)
 func packetOf(pv Val) *rtp.Packet {
 	if len(pv.List()) >= 4 {
-		return MakeRaw(pv.At(0).Int(), pv.At(2).Int(), pv.At(3).Bytes())
+		return MakeRaw(pv.At(0).Int(), pv.At(2).Int(), pv.At(3).Bytes(), pv.At(4).Bytes())
 	}
 	return MakePacket(pv.At(0).Int(), pv.At(1).Int())
 }
